@@ -4,6 +4,7 @@ UNITS = {
     "dateroll": {"rlimit": 20},
     "dual_core": {"rlimit": 30},
     "dual_ops": {"rlimit": 50},
+    "curves": {"rlimit": 50},
 }
 
 COMMON_ASSUMPTIONS = [
@@ -31,6 +32,8 @@ AD_ASSUMPTIONS = [
     "oracle: the textbook forward-mode rules of spec/ad.rs; exp, ln, x^p, Phi, Phi^-1, sqrt, pi are uninterpreted real functions; assumed facts: x^2 = x*x, x^-1 = 1/x, x^-2 = 1/x^2, x^-3 = 1/x^3 (x != 0), sqrt(2 pi) > 0; phi(x) = exp(-x^2/2)/sqrt(2 pi) and 1/phi(x) = sqrt(2 pi) exp(x^2/2) are the definitions used for the normal density",
     "that d/dx exp = exp, d/dx ln = 1/x, d/dx x^p = p x^(p-1), Phi' = phi, (Phi^-1)' = 1/phi(Phi^-1) is calculus, taken as the oracle and not derived from limits",
 ]
+
+CURVE_UNCOVERED = []
 
 CHECKS = {
     "C04": {
@@ -117,6 +120,24 @@ CHECKS = {
         "uncovered": [
             "abs at exactly zero (the property is silent there)",
             "Sum for Number (needs 'no Dual/Dual2 mix in the sequence')",
+        ],
+    },
+    "C11": {
+        "units": ["curves"],
+        "level": "proof",
+        "assumptions": DUAL_ASSUMPTIONS + [
+            "R5: generic functions are verified as monomorphic copies (index_left at i64, the closed forms at f64/Dual/Dual2), the instantiations the crate uses",
+            "node keys are strictly increasing (established by CurveDF::try_new through sort_keys; sort_keys is an assumed indexmap contract)",
+            "timestamps: `date.and_utc().timestamp()` = 86400 * day number (midnight assumption); `as f64` on i64 keys is exact in the real model",
+        ],
+        "uncovered": CURVE_UNCOVERED,
+    },
+    "C12": {
+        "units": ["curves"],
+        "level": "proof",
+        "assumptions": DUAL_ASSUMPTIONS + AD_ASSUMPTIONS,
+        "uncovered": CURVE_UNCOVERED + [
+            "variable NAMING '<curve id><i>' (string formatting in get_variable_tags) is outside Verus",
         ],
     },
 }
